@@ -27,6 +27,18 @@ type c18Struct struct {
 	act Action
 }
 
+// a node whose every attempt fails and whose fallback recovers
+type c18Recovering struct {
+	*BaseNode
+	act Action
+}
+
+func (n *c18Recovering) Exec(ctx context.Context, p any) (any, error) { return nil, vNewErr() }
+func (n *c18Recovering) ExecFallback(p any, err error) (any, error)   { return 1, nil }
+func (n *c18Recovering) Post(ctx context.Context, s *SharedStore, p, e any) (Action, error) {
+	return n.act, nil
+}
+
 func (n *c18Struct) Post(ctx context.Context, s *SharedStore, p, e any) (Action, error) {
 	return n.act, nil
 }
@@ -51,8 +63,17 @@ func c18Batch(n, c int, stop bool, act Action) *BatchNodeBuilder {
 
 // c18Node builds the node kind under test (forks on the kind; the action stays symbolic)
 func c18Node(act Action) Node {
-	kinds := 6
+	kinds := 8
 	switch vChoice("kind", kinds) {
+	case 6:
+		vCover("kind-fallback-recovered")
+		return &c18Recovering{BaseNode: NewBaseNode(WithMaxRetries(2)), act: act}
+	case 7:
+		vCover("kind-func-fallback-recovered")
+		return NewNode().
+			WithExecFuncAny(func(ctx context.Context, p any) (any, error) { return nil, vNewErr() }).
+			WithExecFallbackFunc(func(p any, err error) (any, error) { return 1, nil }).
+			WithPostFuncAny(func(ctx context.Context, s *SharedStore, p, e any) (Action, error) { return act, nil })
 	case 0:
 		vCover("kind-struct")
 		return &c18Struct{BaseNode: NewBaseNode(), act: act}
